@@ -349,7 +349,21 @@ func init() {
 	}
 	// overlap checks: well-formed IDs are chosen far apart so that every pair is examined
 	f["detector.CheckSpatialIdsOverlap"] = func(c vctx) vres {
-		return boolRes(guard(func() (any, error) { return detector.CheckSpatialIdsOverlap(c.spID(0, 20), c.spID(1, 9)) }))
+		a, b := c.spID(0, 20), c.spID(1, 9)
+		if c.r.Chance(0.5) {
+			g := goodSp(c.r, 20)
+			a, b = g, g
+			if k := c.str(0); k != "good" {
+				a = corrupt(c.r, g, k)
+			}
+			if k := c.str(1); k != "good" {
+				b = corrupt(c.r, g, k)
+				if c.str(0) == k && c.r.Chance(0.5) {
+					b = a
+				}
+			}
+		}
+		return boolRes(guard(func() (any, error) { return detector.CheckSpatialIdsOverlap(a, b) }))
 	}
 	f["detector.CheckSpatialIdsArrayOverlap"] = func(c vctx) vres {
 		a := c.idList(0, func() string { return goodSp(c.r, 20) })
@@ -357,13 +371,31 @@ func init() {
 		return boolRes(guard(func() (any, error) { return detector.CheckSpatialIdsArrayOverlap(a, b) }))
 	}
 	f["detector.CheckExtendedSpatialIdsOverlap"] = func(c vctx) vres {
-		return boolRes(guard(func() (any, error) {
-			return detector.CheckExtendedSpatialIdsOverlap(c.extID(0, 20, 20), c.extID(1, 21, 21))
-		}))
+		a, b := c.extID(0, 20, 20), c.extID(1, 21, 21)
+		if c.r.Chance(0.5) { // the same voxel on both sides: one spelled correctly, one malformed (or both malformed alike)
+			g := goodExt(c.r, 20, 20)
+			a, b = g, g
+			if k := c.str(0); k != "good" {
+				a = corrupt(c.r, g, k)
+			}
+			if k := c.str(1); k != "good" {
+				b = corrupt(c.r, g, k)
+				if c.str(0) == k && c.r.Chance(0.5) {
+					b = a
+				}
+			}
+		}
+		return boolRes(guard(func() (any, error) { return detector.CheckExtendedSpatialIdsOverlap(a, b) }))
 	}
 	f["detector.CheckExtendedSpatialIdsArrayOverlap"] = func(c vctx) vres {
-		a := c.idList(0, func() string { return goodExt(c.r, 20, 20) })
-		b := c.idList(1, func() string { return goodExt(c.r, 21, 21) })
+		zb := int64(21)
+		if c.r.Chance(0.5) {
+			zb = 20
+		}
+		a := c.idList(0, func() string { return ID{20, c.r.In(0, 1<<19), c.r.In(0, 1<<19), 20, c.r.In(-100, 100)}.String() })
+		b := c.idList(1, func() string {
+			return ID{zb, (1 << 19) + c.r.In(1, 1<<18), c.r.In(0, 1<<19), zb, c.r.In(-100, 100)}.String()
+		})
 		s1, _ := c.pair(0)
 		s2, _ := c.pair(1)
 		if s1 == "empty" || s2 == "empty" {
@@ -614,22 +646,29 @@ func capLineZoom(z int64) int64 {
 	return z
 }
 
-func evInvalid(t *Tracer, r Rng, fn string, cv []any) {
+func evInvalid(t *Tracer, r Rng, fn string, cv []any, fixedSeed int64) {
 	f, ok := invalidFns[fn]
 	if !ok {
 		fmt.Println("no adapter for", fn)
 		return
 	}
-	// several concretisations of the same class vector
-	for k := 0; k < 3; k++ {
-		res := f(vctx{r, cv})
+	// several concretisations of the same class vector, each with its own recorded seed
+	for k := 0; k < 4; k++ {
+		rs := r.Int63() >> 34
+		if fixedSeed >= 0 {
+			rs = fixedSeed
+		}
+		res := f(vctx{NewRng(rs), cv})
 		if res.o == "skip" {
 			return
 		}
-		e := absW.ev("Invalid", map[string]any{"fn": fn, "cv": cv})
+		e := absW.ev("Invalid", map[string]any{"fn": fn, "cv": cv, "rs": rs})
 		e.O = res.o
 		e.R = map[string]any{"empty": res.empty, "emptyid": res.hasEm}
 		t.Emit(e, true)
+		if fixedSeed >= 0 {
+			return
+		}
 	}
 }
 
@@ -700,7 +739,11 @@ func init() {
 	})
 	reg("Invalid", func(t *Tracer, w Win, a map[string]any) {
 		cv, _ := a["cv"].([]any)
-		evInvalid(t, NewRng(int64(len(fmt.Sprint(cv)))*7919+replaySeed), a["fn"].(string), cv)
+		fixed := int64(-1)
+		if v, ok := a["rs"]; ok {
+			fixed = decInt(v) // re-execution of a recorded call: same concretisation
+		}
+		evInvalid(t, NewRng(int64(len(fmt.Sprint(cv)))*7919+replaySeed), a["fn"].(string), cv, fixed)
 	})
 }
 
